@@ -135,8 +135,13 @@ fn check_datum(ctx: &mut Ctx, rv: &RVal) {
         views.push(("ValueCow::Borrowed", observe(&ValueCow::Borrowed(&v), ordered)));
         views.push(("ValueCow::as_view", observe(ValueCow::Borrowed(&v).as_view(), ordered)));
         views.push(("Cow::into_owned", observe(&ValueCow::Borrowed(&v).into_owned(), ordered)));
-        if !rv.is_nil() {
-            views.push(("Some(v)", observe(&Some(v.clone()), ordered)));
+        // `Some(v)` is a view of v for every v, nil included; `None` is a view of nil
+        views.push(("Some(v)", observe(&Some(v.clone()), ordered)));
+        views.push(("Some(Some(v))", observe(&Some(Some(v.clone())), ordered)));
+        views.push(("&Some(v)", observe(&&Some(v.clone()), ordered)));
+        if rv.is_nil() {
+            views.push(("None", observe(&None::<Value>, ordered)));
+            views.push(("Some(None)", observe(&Some(None::<Value>), ordered)));
         }
         if let Value::Array(a) = &v {
             let vec: Vec<Value> = a.clone();
@@ -154,6 +159,8 @@ fn check_datum(ctx: &mut Ctx, rv: &RVal) {
             ValueViewCmp::new(&v) == ValueViewCmp::new(&v.to_value()),
             ValueCow::Borrowed(&v) == ValueCow::Owned(v.clone()),
             ValueCow::Borrowed(&v) == v,
+            ValueViewCmp::new(&Some(v.clone())) == ValueViewCmp::new(&v),
+            ValueCow::Borrowed(&Some(v.clone())) == v,
         ];
         (views, eqs)
     });
@@ -254,6 +261,7 @@ struct Rich {
     m: BTreeMap<String, i64>,
     inner: Inner,
     oi: Option<Inner>,
+    oo: Option<Option<i64>>,
 }
 
 #[derive(Clone, Debug, Serialize, Deserialize, liquid::ObjectView, liquid::ValueView)]
@@ -273,7 +281,7 @@ enum Choice {
 }
 
 const BATTERY: &[&str] = &[
-    "{{ x.i }}|{{ x.f }}|{{ x.b }}|{{ x.s }}|{{ x.o }}|{{ x.v | join: ',' }}|{{ x.inner.n }}|{{ x.inner.t }}|{{ x.oi.n }}",
+    "{{ x.i }}|{{ x.f }}|{{ x.b }}|{{ x.s }}|{{ x.o }}|{{ x.oo }}{% if x.oo == nil %}N{% endif %}|{{ x.v | join: ',' }}|{{ x.inner.n }}|{{ x.inner.t }}|{{ x.oi.n }}",
     "{{ x | size }}|{{ x.v | size }}|{{ x.s | size }}|{{ x.m | size }}",
     "{% if x contains 'i' %}1{% else %}0{% endif %}{% if x contains 'zz' %}1{% else %}0{% endif %}{% if x.v contains 2 %}1{% else %}0{% endif %}",
     "{% if x == empty %}E{% endif %}{% if x.s == empty %}e{% endif %}{% if x.v == empty %}v{% endif %}{% if x.s == blank %}b{% endif %}{% if x.o == nil %}n{% endif %}",
@@ -557,6 +565,11 @@ pub fn run(ctx: &mut Ctx) {
                                     m,
                                     inner: Inner { n: i, t: st.to_string() },
                                     oi: if b { Some(Inner { n: 1, t: "t".into() }) } else { None },
+                                    oo: match o {
+                                        None => None,
+                                        Some(0) => Some(None),
+                                        Some(x) => Some(Some(x)),
+                                    },
                                 };
                                 let single = Single { only: v.iter().map(|x| x.to_string()).collect() };
                                 if ctx.mine_idx(count) {
